@@ -661,6 +661,16 @@ rt_gen_wellformed(vh_rng *r, struct rt_desc *d, int allow_fail)
             a->custom = 1;
             a->has_write = 0;
         }
+        /* ... or have no words at all: an area of size zero maps no address, yet it is an element of the list.
+         * Such an area is always plainly accessible here (both flags, callbacks or memory present): whether a block
+         * that spans the seam it sits on "touches" it is not stated anywhere, the library's read-only scan says it
+         * does, so a zero-sized read-only area would make the verdict on such a block a matter of reading */
+        if (i == bare && i != large && f % 5 == 1) {
+            a->size = 0;
+            a->window = 0;
+            a->readable = a->writeable = 1;
+            a->has_write = 1;
+        }
         lastgap = gaps[vh_below(r, 4)];
         cursor += a->size + lastgap;
     }
@@ -691,7 +701,7 @@ rt_gen_wellformed(vh_rng *r, struct rt_desc *d, int allow_fail)
  * directly behind, in front of and between populated ones, a long densely packed area next to a register-less
  * one, everything adjacent. Registers are filled from the generator (types by size, constraints, defaults).
  * Returns 0 when k is past the list. */
-#define RT_NCURATED 20
+#define RT_NCURATED 24
 static int
 rt_gen_curated(vh_rng *r, unsigned k, struct rt_desc *d, int allow_fail)
 {
@@ -699,7 +709,7 @@ rt_gen_curated(vh_rng *r, unsigned k, struct rt_desc *d, int allow_fail)
     static const struct {
         uint32_t base;
         uint32_t size[3];
-        unsigned bare, custom, be, nowrite, window;
+        unsigned bare, custom, be, nowrite, window, zero;
     } L[RT_NCURATED / 2] = {
         { 0, { 4, 4, 0 }, 2u, 0u, 0 },         /* populated, bare */
         { 0x100, { 3, 5, 0 }, 1u, 0u, 1 },     /* bare, populated */
@@ -710,7 +720,9 @@ rt_gen_curated(vh_rng *r, unsigned k, struct rt_desc *d, int allow_fail)
         { 0x100, { 6, 6, 0 }, 0u, 2u, 0, 2u },    /* memory area, callback area without write callback (sanitise cannot repair it) */
         { 0x7ffe, { 5, 4, 5 }, 0u, 5u, 1, 4u },   /* callback, memory, callback-without-write; across the 15-bit boundary */
         { 0, { 16, 5, 0 }, 1u, 1u, 0, 1u, 1u },   /* a reserved window (no callbacks, no memory) at address 0, populated */
-        { 1, { 3, 2, 6 }, 2u, 2u, 1, 2u, 2u }     /* populated, reserved window, populated */
+        { 1, { 3, 2, 6 }, 2u, 2u, 1, 2u, 2u },    /* populated, reserved window, populated */
+        { 0, { 4, 1, 4 }, 2u, 0u, 0, 0u, 0u, 2u }, /* populated, an area of size zero, populated: all at one seam */
+        { 0x100, { 1, 6, 1 }, 5u, 1u, 1, 0u, 0u, 5u } /* zero-sized areas in front of and behind a populated one */
     };
     if (k >= RT_NCURATED)
         return 0;
@@ -726,6 +738,8 @@ rt_gen_curated(vh_rng *r, unsigned k, struct rt_desc *d, int allow_fail)
         a->custom = (int)((L[li].custom >> i) & 1u);
         a->has_write = !((L[li].nowrite >> i) & 1u);
         a->window = (int)((L[li].window >> i) & 1u);
+        if ((L[li].zero >> i) & 1u)
+            a->size = 0;
         cursor += a->size;
     }
     for (int i = 0; i < d->nareas && d->nregs < RT_MAXREGS - 2; i++) {
